@@ -145,4 +145,54 @@ ordered by counter -/
 def tiling (refs : List Ref) : List (Nat × Nat × Nat) :=
   ((refs.mergeSort refLE).filter (fun r => r.lo < r.hi)).map (fun r => (r.counter, r.lo, r.hi))
 
+
+/-! ## `_write_file_part` as the list of operations the code performs (C01: every part is written)
+
+`Gen.writePartOps` is the sequence of operations on the opened file read from the source (tools/sections/01_writepart.py).
+`branch` stands for control flow between two operations whose condition the model does not know: `leave data` says whether
+the function is left there for this piece of data (an `if …: return`, a `raise`, a skipped block).  `C01.write_part_unconditional`
+proves `runW … = writePart` for EVERY `leave`, which is possible only when the list has no `branch`. -/
+
+/-- the opened file inside `_write_file_part`: content, file position, the remembered `file_end` -/
+structure WState where
+  content : Bytes
+  pos : Nat
+  fileEnd : Nat
+deriving Repr
+
+/-- `file.write(data)` at position `pos` (a position beyond the end is filled with zeros first) -/
+def writeAt (cur : Bytes) (pos : Nat) (data : Bytes) : Bytes :=
+  let ext := cur ++ List.replicate (pos - cur.length) 0
+  ext.take pos ++ data ++ ext.drop (pos + data.length)
+
+def stepW (off : Nat) (data : Bytes) (op : Gen.WOp) (s : WState) : WState :=
+  match op with
+  | .seekEnd => { s with pos := s.content.length, fileEnd := s.content.length }
+  | .truncate => { s with content := setLength s.content (Gen.writeTruncate s.fileEnd off data.length) }
+  | .seekOffset => { s with pos := off }
+  | .writeData => { s with content := writeAt s.content s.pos data, pos := s.pos + data.length }
+  | .branch => s
+  | .other => s      -- not modelled; the theorem needs the list free of it
+
+/-- the content of the file when `_write_file_part` returns -/
+def runW (leave : Bytes → Bool) (off : Nat) (data : Bytes) : List Gen.WOp → WState → Bytes
+  | [], s => s.content
+  | .branch :: ops, s => if leave data then s.content else runW leave off data ops s
+  | op :: ops, s => runW leave off data ops (stepW off data op s)
+
+/-- the writer threads executing plan entries through the code's operation list; a reference that does not reach
+`_write_file_part` (when the code has such a path) writes nothing -/
+def applyWritesCode (leave : Bytes → Bool) (chunks : List Bytes) (old : Bytes) (ws : List (Nat × Nat × Nat × Nat)) : Bytes :=
+  ws.foldl (fun cur e =>
+    if Gen.everyRefReachesWritePart then runW leave e.2.2.2 (partData chunks e) Gen.writePartOps ⟨cur, 0, 0⟩ else cur) old
+
+/-- `restoreFile` with the writes executed through the code's operation list -/
+def restoreFileCode (leave : Bytes → Bool) (chunks : List Bytes) (old : Option Bytes) (refs : List Ref)
+    (ws : List (Nat × Nat × Nat × Nat)) : Option Bytes :=
+  if refs.isEmpty then
+    (if Gen.restoresChunklessFiles then some [] else old)
+  else
+    let cur := applyWritesCode leave chunks (old.getD []) ws
+    some (if Gen.restoreSetsFinalLength then setLength cur (planSize refs) else cur)
+
 end Replicat
